@@ -236,9 +236,11 @@ def run_pipeline(tier, ev, col):
     V.run([hv, 'gen', str(nh), str(seed), fh, 'hist'], check=True)
     V.run([hv, 'gen', str(nm), str(seed + 1), fm, 'med'], check=True)
     V.run([hv, 'gen', str(nsc), str(seed + 2), fs, 'scaled'], check=True)
+    fhf = os.path.join(d, 'histfar.txt')      # re-solve histories next to an unrelated pair held far apart (large constant in the cost)
+    V.run([hv, 'gen', str(nh // 2), str(seed + 3), fhf, 'histfar'], check=True)
     # ---------------------------------------------------------------- B2 step level (hook H1)
     tfiles = []
-    for src, tag, sat in ((tl, 'enum', 0), (tl, 'enum-satisfy', 1), (fh, 'hist', 0)):
+    for src, tag, sat in ((tl, 'enum', 0), (tl, 'enum-satisfy', 1), (fh, 'hist', 0), (fhf, 'histfar', 0)):
         tf = os.path.join(d, 'trace_%s.ndjson' % tag)
         rc, out = V.run([hv, 'trace', src, tf, str(sat)], timeout=900)
         if rc != 0:
@@ -270,7 +272,7 @@ def run_pipeline(tier, ev, col):
     # ---------------------------------------------------------------- B2 record level
     nrec = nruns = nontriv = undecided = 0
     jobs = []
-    for src, harness, tag in ((full, hv, 'enum'), (fh, hv, 'hist'), (fm, hv, 'med'), (fs, hv, 'scaled'),
+    for src, harness, tag in ((full, hv, 'enum'), (fh, hv, 'hist'), (fhf, hv, 'histfar'), (fm, hv, 'med'), (fs, hv, 'scaled'),
                               (full, ha, 'enum-avoid'), (fh, ha, 'hist-avoid'), (fm, ha, 'med-avoid'), (fs, ha, 'scaled-avoid')):
         rf = os.path.join(d, 'recs_%s.json' % tag)
         rc, out = V.run([harness, 'recs', src, rf], timeout=1200, env={'VERIF_SEED': seed})
